@@ -70,8 +70,14 @@ def gen_plan(run_seed, tier, index):
         a = {}
         if name == 'OpenQueryInstances':
             a['FilterQueryLanguage'] = 'DMTF:FQL'
-            a['FilterQuery'] = 'select * from %s' % model['classes'][0][
-                'name']
+            a['FilterQuery'] = r.choice([
+                'select * from %s', 'select * from %s', 'SELECT * FROM %s',
+                'SELECT * FROM %s', 'select * FROM %s']) % (
+                    model['classes'][0]['name'] if r.random() < 0.9
+                    else 'NoSuchCls')
+            if r.random() < 0.5:
+                # (the mock finds the class only behind an upper case FROM)
+                a['ReturnQueryResultClass'] = r.choice([True, True, False])
             ns = g.ns(False)
             if ns is not None:
                 a['namespace'] = ns
@@ -144,7 +150,9 @@ def gen_plan(run_seed, tier, index):
             'default_max': r.choice([100, 100, 1, 2, 3, 5]),
             # a stub query engine behind ExecQuery/OpenQueryInstances (the
             # mock's own one always answers CIM_ERR_NOT_SUPPORTED)
-            'query_engine': r.random() < 0.6}
+            'query_engine': r.random() < 0.6,
+            # ... that hands out one cached list object per query
+            'query_shared': r.random() < 0.4}
 
 
 def _mutation(r, g):
@@ -217,8 +225,10 @@ def execute(plan):
         conn = mg.fresh_conn(model)
         other = mg.fresh_conn(model)        # an unrelated server
         if plan.get('query_engine'):
-            mg.enable_query(conn)
+            mg.enable_query(conn, shared=plan.get('query_shared', False))
             mg.enable_query(other)
+            if plan.get('query_shared'):
+                bump('query_engine_with_shared_result_list')
         sess = {}        # sid -> dict(remaining, pull, ctx, state, ns...)
         old_ctx = {}     # sid -> last context of a finished session
         removed_ns = set()
@@ -285,8 +295,16 @@ def execute(plan):
                 oa = dict(a)
                 if moc is not None:
                     oa['MaxObjectCount'] = moc
+                ctx_before = set(table())
                 got = opgen.call(conn, {'op': name, 'a': oa}, [])
                 trace.append(('open', name, got[0], moc))
+                if got[0] == 'exc' and set(table()) != ctx_before:
+                    viol('context-left-by-failed-open',
+                         'step %d %s%r raised %r but left the enumeration '
+                         'context(s) %s on the server' % (
+                             i, name, oa, got[1],
+                             sorted(set(table()) - ctx_before)))
+                    continue
                 bump('open_' + ('none' if moc is None else
                                 'zero' if moc == 0 else 'pos'))
                 if pull_disabled:
@@ -307,6 +325,13 @@ def execute(plan):
                              'raised %r' % (i, name, a, exp[1], got[1]))
                     continue
                 if got[0] == 'exc':
+                    if oa.get('ReturnQueryResultClass') and isinstance(
+                            got[1], CIMError) and got[1].status_code in (
+                                pywbem.CIM_ERR_INVALID_QUERY,
+                                pywbem.CIM_ERR_NOT_FOUND):
+                        # the mock could not name the result class
+                        bump('query_result_class_not_found')
+                        continue
                     viol('open-fails-where-traditional-succeeds',
                          'step %d %s%r raised %r' % (i, name, oa, got[1]))
                     continue
